@@ -513,6 +513,10 @@ def NEST(tier='quick'):
         # the smallest alternative (CER)
         ('SET', (('c', ('CHOICE', (('n', ('CHOICE', (('i', INT), ('o', OCTS)))), ('r', UTF8))), 'R', None),
                  ('b', BOOL, 'R', None), ('u', NULL, 'R', None))),
+        # ... with a sibling whose tag lies between the tags of the inner alternatives (the smallest inner tag
+        # and the tag actually chosen then put the member in different places)
+        ('SET', (('c', ('CHOICE', (('n', ('CHOICE', (('i', INT), ('o', OCTS)))), ('r', UTF8))), 'R', None),
+                 ('b', BOOL, 'R', None), ('s', BITS, 'R', None))),
     ]
     for T in order_sets:
         assert M.legal(T), T
@@ -543,11 +547,12 @@ def NEST(tier='quick'):
         for nv in ({'a': 1}, {'a': 2}, {'a': 1, 'l': []}, {'a': 1, 'l': [5]}, {'a': 1, 'c': ('x', 0)}):
             yield T, {'h': 7, 'n': nv}
 
-    # DEFAULT component of SET OF type: the same set written in another order is still the default
+    # DEFAULT component of SET OF type: the same set written in another order is still the default; a value of the
+    # same length whose members all occur in the default but with other multiplicities ({1,1} vs {1,2}) is not
     for kind in ('SEQ', 'SET'):
         T = (kind, (('h', I(30, INT), 'R', None), ('s', I(29, ('SETOF', INT)), 'D', M.freeze([1, 2]))))
         assert M.legal(T)
-        for sv in ([1, 2], [2, 1], [1], [2, 1, 1], []):
+        for sv in ([1, 2], [2, 1], [1], [2, 1, 1], [], [1, 1], [2, 2]):
             yield T, {'h': 7, 's': sv}
 
     # DEFAULT component of CHOICE type whose alternatives can hold equal contents
